@@ -1,8 +1,11 @@
 """C17 ELBO and VI (structural clauses, DESIGN §4-C17)."""
-from . import infer
+from . import infer, adevr
 from . import tables
 
 EXPLANATION = ("The elbo closure's symbolic value is compared (as a polynomial over resolved calls) with log p(merge(constraint, q choices)) + q score; "
-               "the optimisation scan's carry/emit terms with params + lr·grad_estimate(params); families' covariance constructions; merge precedence.")
-RULES = [infer.elbo_rule, infer.optimize_rule, infer.families_rule, infer.elbo_vi_rule, tables.fn_merge_table]
+               "the optimisation scan's carry/emit terms with params + lr·grad_estimate(params); families' covariance constructions; merge precedence; "
+               "the reparameterised / score-function estimators the built-in families are made of (shared with C11).")
+# the built-in variational families draw through multivariate_normal_reparam / multivariate_normal_reinforce: "with both reparameterised and
+# score-function families" makes those two estimators' forms part of this property
+RULES = [infer.elbo_rule, infer.optimize_rule, infer.families_rule, infer.elbo_vi_rule, tables.fn_merge_table, adevr.reparam_rule, adevr.reinforce_rule]
 FLOOR = 5
